@@ -630,7 +630,13 @@ func init() {
 			}},
 			{Name: "generated-struct-types", Count: n(400, 12000), Run: func(c *core.Ctx, idx int) {
 				var t reflect.Type
-				pn := mon.Try(func() { t = genStructType(c.R, 2) })
+				pn := mon.Try(func() {
+					if idx%3 == 0 {
+						t = genEmbedded(c.R, 2+c.R.Intn(4))
+					} else {
+						t = genStructType(c.R, 2)
+					}
+				})
 				if pn != nil || t == nil {
 					c.Count("struct-type-generation-refused")
 					return
